@@ -5,8 +5,8 @@ import DiscretModel.Model.Handshake
 /-
 Model driver for engine `serve` (C08, C19). Same op files as `dv-serve run`.
 C08 (case … prop=C08): room / member / row / ref / delref / delrow / open / auth / now / q — see
-harness/serve/src/c08.rs. The request table is `Gen/ServeTable.lean` (regenerated from the source on
-every run); the switches are `Defects.asImplemented`. C19 ops are handled by `Driver/ServeHs` below.
+harness/serve/src/c08.rs. The request table, the membership re-check and the event rule are `Gen.code`
+(`Gen/ServeTable.lean`, regenerated from the source on every run); the switches are `Defects.asImplemented`. C19 ops are handled by `Driver/ServeHs` below.
 Anything malformed -> "bad-op".
 -/
 open Discret Discret.Proto Discret.Room Discret.Serve Discret.Serve.Gen
@@ -39,7 +39,7 @@ def getConn (l : List (Nat × Conn)) (c : Nat) : Option Conn := (l.find? (·.1 =
 /-- install a definition and hand the event to every open connection -/
 def install (s : St) (room : Room) : St :=
   let w' := installRoom s.w room
-  { s with w := w', conns := s.conns.map fun p => (p.1, roomEvent d w' p.2 room) }
+  { s with w := w', conns := s.conns.map fun p => (p.1, roomEvent d code.event w' p.2 room) }
 
 def addLogDay (l : List (RoomId × Int)) (r : RoomId) (day : Int) : List (RoomId × Int) :=
   if l.contains (r, day) then l else l ++ [(r, day)]
@@ -221,7 +221,7 @@ def stepOp (s : St) (kind : String) (toks : List String) : St × String :=
     | some c, some q =>
       match getConn s.conns c with
       | some x =>
-        let (x', a) := serve d serveTable s.w own x q
+        let (x', a) := serve d code s.w own x q
         ({ s with conns := setConn s.conns c x' }, fmtAnswer a)
       | none => (s, "bad-op")
     | _, _ => (s, "bad-op")
